@@ -13,7 +13,7 @@ func init() {
 	})
 	property(&Property{
 		ID:          "C02",
-		Rules:       []string{"LITERAL-FIRST", "BACKTRACK", "STOP-SET", "SORTED-VARS", "NO-MAP-ORDER", "OFFSET-BASE", "PATH-CHARSET", "COW-5", "COW-2", "PATH-NORMALISE", "KEY-AGREE", "STORED-SLICE-REUSE"},
+		Rules:       []string{"LITERAL-FIRST", "BACKTRACK", "STOP-SET", "SORTED-VARS", "NO-MAP-ORDER", "OFFSET-BASE", "PATH-CHARSET", "COW-5", "COW-2", "PATH-NORMALISE", "KEY-AGREE", "STORED-SLICE-REUSE", "DELRULE-TOTAL"},
 		Decides:     "Decides the structural guarantees of the matcher's shape for every rule set and path: the literal edge is tried before any variable and wins if it succeeds; a failed sub-search never aborts the search (only a conversion failure does); variables are kept sorted by a strict order on a key that depends on the pattern only; nothing on the matching path ranges over a map; capture lengths are computed against the right base. Also: the lexer's path character class contains RFC 3986 pchar (without ':' and '%'); cloning a routing node never drops a field on an early return. Also: every writer loads, clones and publishes the routing snapshot under the writers' lock (a registration built on a stale snapshot erases the rules committed in between). Also: the request path is only slash-normalised before matching (no path.Clean: '.' and '..' are legal segment texts). Also: reader and writer of the literal edges build the key alike (separator + text).",
 		NotDecided:  "that every instantiation of every template matches (value-level: lexer character classes, token cap, '**' stopping at the first ':'); order independence of registration (duplicate detection, delRule).",
 		Assumptions: commonAssumptions,
@@ -76,8 +76,8 @@ func init() {
 	})
 	property(&Property{
 		ID:          "C11",
-		Rules:       []string{"WRITER-PUBLISHES", "ADD-REMOVE-SYMMETRY", "REMOVE-FILTER", "PICK-CURRENT", "COW-6", "STORED-SLICE-REUSE", "FD-LOCAL", "DELRULE-GUARD", "NIL-STATE", "DESC-BY-NAME", "COW-2", "HANDLERS-PRESENCE", "CONN-OWNS-ALL", "COW-5", "FDHASH-STREAMED"},
-		Decides:     "Decides that every operation that changes the registration set publishes it, that removal empties what registration fills and keeps exactly the handlers of other connections, that dropping an unknown connection changes nothing, and that dispatch reads one current snapshot and answers Unimplemented exactly when no handler is left. Also: DropConn/registration never touch a nil snapshot; 'same method' is decided on full names, never on descriptor identity. Also: writers load the snapshot under the lock (no lost registration or drop); presence of a key in the handler table is trusted only if removal deletes emptied entries. Also: a connection leaves state.conns only through removeHandler, together with its handlers. Also: the handler list recorded for a connection covers every handler installed for it (never re-made inside the loops). Also: the clone a writer works on shares no mutable routing memory with the published snapshot (struct copies included), so a registration that fails half-way leaves the live routes as they were. Also: the digest that decides 'connection unchanged' is one streaming hash over all received file descriptors.",
+		Rules:       []string{"WRITER-PUBLISHES", "ADD-REMOVE-SYMMETRY", "REMOVE-FILTER", "PICK-CURRENT", "COW-6", "STORED-SLICE-REUSE", "FD-LOCAL", "DELRULE-GUARD", "NIL-STATE", "DESC-BY-NAME", "COW-2", "HANDLERS-PRESENCE", "CONN-OWNS-ALL", "COW-5", "FDHASH-STREAMED", "DELRULE-TOTAL"},
+		Decides:     "Decides that every operation that changes the registration set publishes it, that removal empties what registration fills and keeps exactly the handlers of other connections, that dropping an unknown connection changes nothing, and that dispatch reads one current snapshot and answers Unimplemented exactly when no handler is left. Also: DropConn/registration never touch a nil snapshot; 'same method' is decided on full names, never on descriptor identity. Also: writers load the snapshot under the lock (no lost registration or drop); presence of a key in the handler table is trusted only if removal deletes emptied entries. Also: a connection leaves state.conns only through removeHandler, together with its handlers. Also: the handler list recorded for a connection covers every handler installed for it (never re-made inside the loops). Also: the clone a writer works on shares no mutable routing memory with the published snapshot (struct copies included), so a registration that fails half-way leaves the live routes as they were. Also: the digest that decides 'connection unchanged' is one streaming hash over all received file descriptors. Also: removing a method removes every rule of it (delRule visits every child and clears the kind-'*' slot), so a later re-registration re-creates all bindings.",
 		NotDecided:  "behaviour over histories (stale routes answering Unimplemented, which backend answers).",
 		Assumptions: commonAssumptions,
 	})
